@@ -295,6 +295,8 @@ def cases(tier, r):
     yield 'inline', {'seed': n, 'transform': 'inline', 'chain': True}
     yield 'tagged_odd', {'seed': n, 'transform': 'tagged_odd'}
     yield 'dataclasses', {'seed': n, 'transform': 'dataclasses'}
+  for _ in range(40 if tier == 'quick' else 600):
+    yield 'buildable_defaults', {'seed': r.getrandbits(48), 'transform': 'buildable_defaults'}
 
 
 class SharedLeaf:
@@ -436,9 +438,56 @@ def serializable(c):
     return False
 
 
+def _sched(rate=0.1, warm=0, *, kind='cos'):
+  return Rec('_sched', [('rate', rate), ('warm', warm), ('kind', kind)], (), {})
+
+
+def _opt(lr=1.0, schedule=fdl.Config(_sched, 0.5)):
+  return Rec('_opt', [('lr', lr), ('schedule', schedule)], (), {})
+
+
+def _trainer(steps=1, schedule=fdl.Config(_sched, 0.1), extra=(fdl.Partial(_sched, 0.01),), opt=fdl.Config(_opt),
+             hooks=None):
+  return Rec('_trainer', [('steps', steps), ('schedule', schedule), ('extra', extra), ('opt', opt), ('hooks', hooks)],
+             (), {})
+
+
+def run_buildable_defaults(case):
+  """materialize_defaults where a default value is itself a Buildable (or a container of them, or
+  a Buildable whose own default is one): ONE call sets every parameter that has a default, at
+  every depth, and a second call changes nothing."""
+  r = random.Random(case['seed'])
+  kw = {}
+  if r.random() < 0.5:
+    kw['steps'] = r.randint(2, 9)
+  if r.random() < 0.25:
+    kw['schedule'] = fdl.Config(_sched, warm=3)
+  if r.random() < 0.25:
+    kw['opt'] = fdl.Config(_opt, lr=0.5)
+  node = r.choice([fdl.Config, fdl.Partial])(_trainer, **kw)
+  root = node if r.random() < 0.5 else fdl.Config(graphs.node_fn(1, 0), p=[node, node], q={'k': node})
+  keep = graphs.canon(root)
+  before = bind_canon(fdl.build(copy.deepcopy(root)))
+  t = copy.deepcopy(root)
+  obs = {'transform': 'buildable_defaults', 'cfg': repr(root)[:300]}
+  try:
+    materialize.materialize_defaults(t)
+    once = graphs.canon(t)
+    obs['all_defaults_set'] = all_defaults_set(t)
+    materialize.materialize_defaults(t)
+    obs['idempotent'] = graphs.canon(t) == once
+    obs['build_same'] = bind_canon(fdl.build(t)) == before
+  except Exception as e:
+    obs['raised'] = f'{type(e).__name__}: {e}'[:200]
+  obs['input_unchanged'] = graphs.canon(root) == keep
+  return obs
+
+
 def execute(case):
   name = case['transform']
   obs = {'transform': name}
+  if name == 'buildable_defaults':
+    return run_buildable_defaults(case), None
   if name == 'materialize_flat':
     from harness import argstore
     real, _cfg = argstore.run_real(case)
@@ -596,6 +645,20 @@ def oracle(case, real):
     return flat_oracle(case, real)
   if 'raised' in real:
     return {'what': f'{name} raised', 'raised': real['raised']}
+  if name == 'buildable_defaults':
+    for key, what in (('all_defaults_set', 'after materialize_defaults a parameter with a default is still unset '
+                                            '(inside a default value that is a Buildable)'),
+                      ('idempotent', 'materialize_defaults is not idempotent (a default value that is a Buildable)'),
+                      ('input_unchanged', 'materialize_defaults of a copy changed the original'),
+                      ('build_same', 'materialize_defaults changed what is built')):
+      if real.get(key) is not True:
+        f = {'what': what, 'configuration': real['cfg'], 'observed': {k: v for k, v in real.items() if k != 'cfg'}}
+        if key == 'build_same' and real.get(key) is False:
+          # recorded finding: a default value that is a Buildable is handed to the callable UNBUILT
+          # while it is a default, and is built once materialize_defaults made it an argument
+          f['class'] = 'materialize-buildable-default'
+        return f
+    return None
   if name == 'tagged_odd':
     if real['problems']:
       return {'what': 'materialize_tags on a TaggedValue whose value compares oddly', 'class': 'materialize-tags-eq',
